@@ -565,8 +565,17 @@ def write_json(path, obj):
     os.makedirs(os.path.dirname(path), exist_ok=True)
     tmp = path + '.tmp'
     with open(tmp, 'w') as f:
-        json.dump(obj, f, indent=1, sort_keys=True, default=_json_default)
+        json.dump(_strkeys(obj), f, indent=1, sort_keys=True, default=_json_default)
     os.replace(tmp, path)
+
+
+def _strkeys(o):
+    """dict keys as strings (mixed int/str keys cannot be sorted by json.dump)."""
+    if isinstance(o, dict):
+        return {(k if isinstance(k, str) else repr(k)): _strkeys(v) for k, v in o.items()}
+    if isinstance(o, (list, tuple)):
+        return [_strkeys(v) for v in o]
+    return o
 
 
 def _json_default(o):
